@@ -12,6 +12,7 @@ import (
 	"path/filepath"
 	"sort"
 	"strings"
+	"sync"
 	"time"
 
 	"github.com/nuetzliches/hookaido/internal/config"
@@ -34,11 +35,19 @@ type Env struct {
 	RunDir, DB, PID, FPID, Log                                           string
 	AdminUp, AdminDown                                                   string
 	Health                                                               string
+	Backend                                                              string // "sqlite" | "proxy"
 }
 
 // ConfigText renders the scratch Hookaidofile.  alt adds one more route (the
 // "valid candidate" submitted to config_apply / config_diff).
-func ConfigText(adminListen, logPath string, alt bool) string {
+func ConfigText(adminListen, logPath string, alt bool, backend string) string {
+	if backend == "" || backend == "proxy" {
+		if backend == "proxy" {
+			backend = "memory"
+		} else {
+			backend = "sqlite"
+		}
+	}
 	var b strings.Builder
 	fmt.Fprintf(&b, `pull_api {
   listen "127.0.0.2:0"
@@ -58,7 +67,7 @@ observability {
 }
 
 "/r" {
-  queue sqlite
+  queue %[3]s
   pull {
     path "/pull/r"
   }
@@ -67,25 +76,28 @@ observability {
 "/m" {
   application "billing"
   endpoint_name "invoice.created"
+  queue %[3]s
   pull {
     path "/pull/m"
   }
 }
 
 "/u" {
+  queue %[3]s
   pull {
     path "/pull/u"
   }
 }
-`, adminListen, logPath)
+`, adminListen, logPath, backend)
 	if alt {
-		b.WriteString(`
+		fmt.Fprintf(&b, `
 "/added" {
+  queue %s
   pull {
     path "/pull/added"
   }
 }
-`)
+`, backend)
 	}
 	return b.String()
 }
@@ -122,8 +134,8 @@ func FileSha(p string) string {
 }
 
 // NewEnv lays out the scratch tree under root.
-func NewEnv(root, adminUp, adminDown, health, dbTemplate string) (*Env, error) {
-	e := &Env{Root: root, AdminUp: adminUp, AdminDown: adminDown, Health: health}
+func NewEnv(root, adminUp, adminDown, health, backend, dbTemplate string) (*Env, error) {
+	e := &Env{Root: root, AdminUp: adminUp, AdminDown: adminDown, Health: health, Backend: backend}
 	e.CfgDir = filepath.Join(root, "cfgdir")
 	e.Cfg = filepath.Join(e.CfgDir, "Hookaidofile")
 	e.OtherDir = filepath.Join(root, "other")
@@ -180,7 +192,7 @@ func (e *Env) adminListen() string {
 	return e.AdminUp
 }
 
-func (e *Env) BaseConfig() string { return ConfigText(e.adminListen(), e.Log, false) }
+func (e *Env) BaseConfig() string { return ConfigText(e.adminListen(), e.Log, false, e.Backend) }
 
 // Replacer maps the ${...} placeholders of argument templates to this environment.
 func (e *Env) Replacer(principal string) *strings.Replacer {
@@ -197,8 +209,8 @@ func (e *Env) Replacer(principal string) *strings.Replacer {
 		"${FPID}", e.FPID,
 		"${PID}", e.PID,
 		"${PRINCIPAL}", principal,
-		"${CONTENT_VALID_DOWN}", ConfigText(e.AdminDown, e.Log, true),
-		"${CONTENT_VALID}", ConfigText(e.AdminUp, e.Log, true),
+		"${CONTENT_VALID_DOWN}", ConfigText(e.AdminDown, e.Log, true, e.Backend),
+		"${CONTENT_VALID}", ConfigText(e.AdminUp, e.Log, true, e.Backend),
 		"${CONTENT_NOPARSE}", ContentNoParse,
 		"${CONTENT_NOCOMPILE}", ContentNoCompile,
 	)
@@ -368,24 +380,58 @@ func DBDump(path string) (string, error) {
 
 // ---------------------------------------------------------------- fake admin endpoint
 
-// StartFakeAdmin serves 200 {"ok":true} on every path (the health endpoint the
-// MCP server probes) and returns its address plus the address of a closed port.
-func StartFakeAdmin() (up, down string, stop func(), err error) {
+// FakeAdmin stands in for the Admin API of a running instance: 200 with a JSON
+// object on every path (health probe, queue reads, queue mutations), and a
+// count of what it was asked since the last Reset.
+type FakeAdmin struct {
+	Up, Down string // address served / address of a closed port
+	mu       sync.Mutex
+	posts    int
+	gets     int
+	srv      *http.Server
+}
+
+func StartFakeAdmin() (*FakeAdmin, error) {
 	ln, err := net.Listen("tcp", "127.0.0.1:0")
 	if err != nil {
-		return "", "", nil, err
+		return nil, err
 	}
-	srv := &http.Server{Handler: http.HandlerFunc(func(w http.ResponseWriter, r *http.Request) {
+	fa := &FakeAdmin{Up: ln.Addr().String()}
+	fa.srv = &http.Server{Handler: http.HandlerFunc(func(w http.ResponseWriter, r *http.Request) {
+		_, _ = io.Copy(io.Discard, r.Body)
+		if !strings.HasSuffix(r.URL.Path, "/healthz") {
+			fa.mu.Lock()
+			if r.Method == http.MethodGet {
+				fa.gets++
+			} else {
+				fa.posts++
+			}
+			fa.mu.Unlock()
+		}
 		w.Header().Set("Content-Type", "application/json")
-		_, _ = w.Write([]byte(`{"ok":true}`))
+		_, _ = w.Write([]byte(`{"ok":true,"items":[],"canceled":1,"requeued":1,"resumed":1,"deleted":1,"published":1,"matched":1}`))
 	})}
-	go func() { _ = srv.Serve(ln) }()
+	go func() { _ = fa.srv.Serve(ln) }()
 	ln2, err := net.Listen("tcp", "127.0.0.1:0")
 	if err != nil {
-		_ = srv.Close()
-		return "", "", nil, err
+		_ = fa.srv.Close()
+		return nil, err
 	}
-	down = ln2.Addr().String()
+	fa.Down = ln2.Addr().String()
 	_ = ln2.Close()
-	return ln.Addr().String(), down, func() { _ = srv.Close() }, nil
+	return fa, nil
 }
+
+func (fa *FakeAdmin) Reset() {
+	fa.mu.Lock()
+	fa.posts, fa.gets = 0, 0
+	fa.mu.Unlock()
+}
+
+func (fa *FakeAdmin) Counts() (posts, gets int) {
+	fa.mu.Lock()
+	defer fa.mu.Unlock()
+	return fa.posts, fa.gets
+}
+
+func (fa *FakeAdmin) Close() { _ = fa.srv.Close() }
